@@ -340,7 +340,7 @@ PROPS["C11"] = dict(
 
 PROPS["C09"] = dict(
     lean_modules=["QuaiVerif.Props.C09"],
-    areas=[dict(name="c09", spec_ops=("diff", "limit"), n_quick=4, n_thorough=60, seeds_thorough=3, n_search=12, timeout=3000)],
+    areas=[dict(name="c09", spec_ops=("diff", "limit", "order", "total", "delta"), n_quick=4, n_thorough=60, seeds_thorough=3, n_search=12, timeout=3000)],
     facts=["verify_header_compares"],
     rule="a case is one 30-block history of the real zone node (see C06) with miner-chosen block times of 0-3 s (10%: up to 39 s) and zone / region blocks; for "
          "every block the model's CalcDifficulty, gas / state limit ramp, TotalLogEntropy, DeltaLogEntropy and CalcOrder are evaluated on the real header "
